@@ -11,18 +11,17 @@ From Tetl Require Import Lib.Base C10.Model C10.Spec C10.Digits C10.ProofsFmt C1
 Local Open Scope Z_scope.
 
 (** ** The specification's numeral is positional notation (spec sanity) *)
-Theorem C10_spec_digits_eval : forall b n, 2 <= b -> 0 <= n -> eval b (digits b n) = n.
-Proof. exact digits_eval. Qed.
-Print Assumptions C10_spec_digits_eval.
-
-Theorem C10_spec_digits_canonical : forall b n, 2 <= b -> 0 < n -> canonical b (digits b n).
-Proof. exact digits_canonical. Qed.
-Print Assumptions C10_spec_digits_canonical.
-
-Theorem C10_spec_numeral_unique : forall b ds1 ds2, 2 <= b ->
-  canonical b ds1 -> canonical b ds2 -> eval b ds1 = eval b ds2 -> ds1 = ds2.
-Proof. exact canonical_unique. Qed.
-Print Assumptions C10_spec_numeral_unique.
+Theorem C10_spec_numeral : forall b, 2 <= b ->
+  (forall n, 0 <= n -> eval b (digits b n) = n)
+  /\ (forall n, 0 < n -> canonical b (digits b n))
+  /\ (forall ds1 ds2, canonical b ds1 -> canonical b ds2 -> eval b ds1 = eval b ds2 -> ds1 = ds2).
+Proof.
+  intros b Hb. split; [|split].
+  - intros n Hn. exact (digits_eval b n Hb Hn).
+  - intros n Hn. exact (digits_canonical b n Hb Hn).
+  - intros ds1 ds2. exact (canonical_unique b ds1 ds2 Hb).
+Qed.
+Print Assumptions C10_spec_numeral.
 
 (** ** to_chars: exactly the specified text when it fits (rest of the buffer untouched,
        ptr = first + length), otherwise value_too_large with ptr = last; in both cases every
@@ -75,16 +74,16 @@ Print Assumptions C10_overflow_checker_exact.
 Theorem C10_from_chars_correct : forall t s b v0, 8 <= bits t -> 2 <= b <= 36 ->
   from_chars_m t s b v0 =
     Ok (let '(c, n, v) := from_chars_spec t b s in
-        (fc_of c, match c with PRange => 0%nat | _ => n end, match v with Some x => x | None => v0 end)).
-Proof. exact from_chars_correct. Qed.
+        (fc_of c, match c with PRange => 0%nat | _ => n end, match v with Some x => x | None => v0 end))
+  /\ (fst (fst (from_chars_spec t b s)) <> PRange ->
+      from_chars_m t s b v0 =
+        Ok (let '(c, n, v) := from_chars_spec t b s in (fc_of c, n, match v with Some x => x | None => v0 end))).
+Proof.
+  intros t s b v0 Hbits Hb. split.
+  - exact (from_chars_correct t s b v0 Hbits Hb).
+  - exact (from_chars_exact t s b v0 Hbits Hb).
+Qed.
 Print Assumptions C10_from_chars_correct.
-
-Theorem C10_from_chars_exact : forall t s b v0, 8 <= bits t -> 2 <= b <= 36 ->
-  fst (fst (from_chars_spec t b s)) <> PRange ->
-  from_chars_m t s b v0 =
-    Ok (let '(c, n, v) := from_chars_spec t b s in (fc_of c, n, match v with Some x => x | None => v0 end)).
-Proof. exact from_chars_exact. Qed.
-Print Assumptions C10_from_chars_exact.
 
 Theorem C10_from_chars_overflow_ptr_refuted : exists t s b v0 r,
   8 <= bits t /\ 2 <= b <= 36 /\ from_chars_m t s b v0 = Ok (FcRange, 0%nat, v0)
@@ -93,52 +92,56 @@ Proof. exact from_chars_overflow_ptr_refuted. Qed.
 Print Assumptions C10_from_chars_overflow_ptr_refuted.
 
 (** ** round trip *)
-Theorem C10_roundtrip : forall t v b buf v0,
-  8 <= bits t -> in_ty t v = true -> 2 <= b <= 36 -> (length (to_text b v) <= length buf)%nat ->
-  exists n buf', to_chars_m t v b buf = Ok (false, n, buf')
-                 /\ from_chars_m t (firstn n buf') b v0 = Ok (FcOk, n, v).
-Proof. exact roundtrip. Qed.
+Theorem C10_roundtrip : forall t v b, in_ty t v = true -> 2 <= b <= 36 ->
+  from_chars_spec t b (to_text b v) = (POk, length (to_text b v), Some v)
+  /\ forall buf v0, 8 <= bits t -> (length (to_text b v) <= length buf)%nat ->
+     exists n buf', to_chars_m t v b buf = Ok (false, n, buf')
+                    /\ from_chars_m t (firstn n buf') b v0 = Ok (FcOk, n, v).
+Proof.
+  intros t v b Hin Hb. split.
+  - exact (spec_roundtrip t v b Hin Hb).
+  - intros buf v0 Hbits Hlen. exact (roundtrip t v b buf v0 Hbits Hin Hb Hlen).
+Qed.
 Print Assumptions C10_roundtrip.
-
-Theorem C10_spec_roundtrip : forall t v b, in_ty t v = true -> 2 <= b <= 36 ->
-  from_chars_spec t b (to_text b v) = (POk, length (to_text b v), Some v).
-Proof. exact spec_roundtrip. Qed.
-Print Assumptions C10_spec_roundtrip.
 
 (** ** strtol strtoll strtoul strtoull (detail::strto_integer after fix commits 0adfefc, cdcca26,
        de18be3, 387b57b): the whole of C17 7.22.1.4 for EVERY character sequence and every base
        0, 2..36 — white space, sign, 0x/0X and 0 prefixes, value saturated at the limits of the
        result type, minus sign negating in the unsigned type, end behind the last digit (at the
-       start when there are no digits).  t ranges over the result types of at least 32 bits
-       (int, long, long long and their unsigned versions). *)
-Theorem C10_strto_correct : forall t s b, 32 <= bits t -> b = 0 \/ 2 <= b <= 36 ->
-  strto_m t s b = Ok (strto_spec t b s).
-Proof. exact strto_correct. Qed.
+       start when there are no digits).  t ranges over the widths of the C++ integer types
+       ([cxx_width]: 8..16 bits, where arithmetic happens in int, or at least 32 bits; the nine
+       wrappers instantiate int, long, long long, unsigned long, unsigned long long). *)
+Theorem C10_strto_correct : forall t s b, cxx_width (bits t) -> b = 0 \/ 2 <= b <= 36 ->
+  strto_m t s b = Ok (strto_spec t b s)
+  (* with the error member: invalid_input iff there is no digit, overflow iff the value had to be
+     clamped (the library has no errno; this is its ERANGE) *)
+  /\ strto_integer_m t s b = Ok (snd (strto_spec t b s), ti_of (strto_class t b s), fst (strto_spec t b s)).
+Proof.
+  intros t s b Hw Hb. split.
+  - exact (strto_correct t s b Hw Hb).
+  - exact (strto_integer_correct t s b Hw Hb).
+Qed.
 Print Assumptions C10_strto_correct.
 
-(* the same with the error member: invalid_input iff there is no digit, overflow iff the value had
-   to be clamped (the library has no errno; this is its ERANGE) *)
-Theorem C10_strto_integer_correct : forall t s b, 32 <= bits t -> b = 0 \/ 2 <= b <= 36 ->
-  strto_integer_m t s b = Ok (snd (strto_spec t b s), ti_of (strto_class t b s), fst (strto_spec t b s)).
-Proof. exact strto_integer_correct. Qed.
-Print Assumptions C10_strto_integer_correct.
-
-(* a base C does not define: no conversion, no undefined behaviour *)
+(* a base C does not define: no conversion, no undefined behaviour (any type, any text) *)
 Theorem C10_strto_bad_base : forall t s b, b < 0 \/ b = 1 \/ 36 < b -> strto_m t s b = Ok (0, 0%nat).
 Proof. exact strto_bad_base. Qed.
 Print Assumptions C10_strto_bad_base.
 
 (** ** stoi stol stoll stoul stoull: (value, *pos) of [string.conversions] whenever std does not
-       throw; where std throws the etl functions (no exceptions) return what strtol returns *)
-Theorem C10_sto_correct : forall t s b r, 32 <= bits t -> b = 0 \/ 2 <= b <= 36 ->
-  sto_spec t b s = Some r -> strto_m t s b = Ok r.
-Proof. exact sto_correct. Qed.
+       throw; where std throws the etl functions (no exceptions) return what strtol returns and
+       the error member is set *)
+Theorem C10_sto_correct : forall t s b, cxx_width (bits t) -> b = 0 \/ 2 <= b <= 36 ->
+  match sto_spec t b s with
+  | Some r => strto_m t s b = Ok r
+  | None => strto_m t s b = Ok (strto_spec t b s) /\ strto_class t b s <> SOk
+  end.
+Proof.
+  intros t s b Hw Hb. destruct (sto_spec t b s) as [r|] eqn:E.
+  - exact (sto_correct t s b r Hw Hb E).
+  - exact (sto_no_throw t s b Hw Hb E).
+Qed.
 Print Assumptions C10_sto_correct.
-
-Theorem C10_sto_no_throw : forall t s b, 32 <= bits t -> b = 0 \/ 2 <= b <= 36 ->
-  sto_spec t b s = None -> strto_m t s b = Ok (strto_spec t b s) /\ strto_class t b s <> SOk.
-Proof. exact sto_no_throw. Qed.
-Print Assumptions C10_sto_no_throw.
 
 (** ** atoi atol atoll: the value of strtol(s, NULL, 10) whenever it is representable *)
 Theorem C10_ato_correct : forall t s v, 8 <= bits t -> sgn t = true -> ato_spec t s = Some v ->
@@ -148,7 +151,7 @@ Print Assumptions C10_ato_correct.
 
 (** ** non-vacuity: the hypotheses are satisfiable and the conclusions are about real behaviour *)
 Example C10_nonvacuous :
-  8 <= bits i8 /\ in_ty i8 (-128) = true /\ in_ty i64 (-9223372036854775808) = true
+  8 <= bits i8 /\ cxx_width (bits i32) /\ cxx_width (bits u64) /\ cxx_width (bits i8) /\ in_ty i8 (-128) = true /\ in_ty i64 (-9223372036854775808) = true
   /\ to_chars_m i32 (-255) 16 [0; 0; 0] = Ok (false, 3%nat, [45; 102; 102])
   /\ to_chars_spec 16 (-255) 3 = Some [45; 102; 102] /\ to_chars_spec 16 (-255) 2 = None
   /\ from_chars_m i8 [45; 49; 50; 56; 32] 10 7 = Ok (FcOk, 4%nat, -128)
@@ -161,4 +164,4 @@ Example C10_nonvacuous :
   /\ sto_spec i32 10 [45; 52; 50] = Some (-42, 3%nat) /\ sto_spec i32 10 [120] = None
   /\ ato_spec i32 [52; 50; 120] = Some 42
   /\ to_string_m i32 3 123 = Ok [49; 50; 51] /\ to_string_m i32 2 123 = Contract.
-Proof. vm_compute. repeat split; congruence. Qed.
+Proof. unfold cxx_width. vm_compute. repeat split; first [congruence | right; congruence | left; split; congruence]. Qed.
